@@ -162,3 +162,16 @@ def gen_flags():
             for m in re.finditer(r'^Definition (\w+) : bool := (true|false)\.', open(p).read(), re.M):
                 out[m.group(1)] = (m.group(2) == 'true')
     return out
+
+
+def coqchk(ck):
+    """thorough tier: re-check the compiled property file with the independent checker; records the context summary"""
+    if not ck.thorough or ck.proof['broken']:
+        return
+    with vlib.Lock():
+        rc, o, e = vlib.sh(['coqchk', '-o', '-silent', '-Q', 'NV', 'NV', 'NV.Props.Properties_%s' % ck.pid], cwd=vlib.COQ, timeout=1500)
+    txt = (o + e)
+    ok = rc == 0 and 'Axioms: <none>' in txt
+    ck.extra['coqchk'] = 'ok: axioms <none>, no type-in-type, no unsafe fixpoints' if ok else 'FAILED: ' + txt[-600:]
+    if not ok:
+        ck.proof['broken'].append('coqchk failed on Properties_%s' % ck.pid)
